@@ -81,6 +81,13 @@ func StartLogic(bin string, timeoutMs int, logic string) (*Solver, error) {
 	return s, nil
 }
 
+// Kill terminates the solver process at once (watchdogs); later commands fail and checks answer unknown.
+func (s *Solver) Kill() {
+	if s != nil && s.cmd != nil && s.cmd.Process != nil {
+		s.cmd.Process.Kill()
+	}
+}
+
 func (s *Solver) Close() {
 	if s == nil || s.cmd == nil {
 		return
